@@ -461,7 +461,9 @@ impl Engine for GlideEngine {
     fn finish(_ex: &mut Exec, _ctx: &mut Ctx) {}
 
     fn run(rng: &mut Rng, prof: &Profile, run: u64, sink: &mut Sink<Self>) {
-        if !prof.chaos && run % 16 == 15 {
+        if run == 3 && prof.tier == Tier::Thorough {
+            random_run_m(rng, prof, sink, true);
+        } else if !prof.chaos && run % 16 == 15 {
             sweep_run(rng, sink);
         } else {
             random_run(rng, prof, sink);
@@ -556,6 +558,10 @@ fn gen_input(rng: &mut Rng) -> f32 {
 }
 
 fn random_run(rng: &mut Rng, prof: &Profile, sink: &mut Sink<GlideEngine>) {
+    random_run_m(rng, prof, sink, false)
+}
+
+fn random_run_m(rng: &mut Rng, prof: &Profile, sink: &mut Sink<GlideEngine>, marathon: bool) {
     let chaos = prof.chaos;
     let fs = if rng.chance(0.5) { *rng.pick(&fs_specials()) } else { rng.log_uniform(100.0, 48000.0) as f32 };
     let long = rng.chance(if prof.tier == Tier::Thorough { 0.08 } else { 0.03 });
@@ -566,19 +572,35 @@ fn random_run(rng: &mut Rng, prof: &Profile, sink: &mut Sink<GlideEngine>) {
     if rng.chance(0.9) {
         t.push(Ev::SetTime(gen_time(rng, fs, n_target, chaos).to_bits()));
     }
+    if marathon {
+        // a day of uptime: more samples than a 32-bit sample counter holds, then the instrument is played
+        let x = gen_input(rng);
+        t.push(Ev::Hold(x.to_bits(), u32::MAX - rng.below(5000) as u32));
+        for _ in 0..rng.range(2, 6) {
+            t.push(Ev::Hold(gen_input(rng).to_bits(), rng.range(1, 4000) as u32));
+        }
+    }
     // long-running blocks (where narrow counters wrap), in a small share of the runs
     if rng.chance(0.02) {
         let n = rng.near_pow2(false);
         if rng.chance(0.5) {
-            // the panel task writing alternating settings many times, a sample or none in between
-            let a = gen_time(rng, fs, n_target, chaos);
-            let b = gen_time(rng, fs, n_target, chaos);
+            // the panel task writing alternating settings many times, a sample or none in between;
+            // half of the time two long times just outside each other's 0.05 s dead band (a noisy pot)
+            let near = rng.chance(0.5);
+            let n = if near { n * rng.range(1, 8) } else { n };
+            let a = if near { rng.uniform(5.2, 10.0) as f32 } else { gen_time(rng, fs, n_target, chaos) };
+            let b = if near { (a as f64 + rng.uniform(0.051, 0.0099 * a as f64) * if rng.chance(0.5) { -1.0 } else { 1.0 }) as f32 } else { gen_time(rng, fs, n_target, chaos) };
             let with_samples = rng.chance(0.5);
             for i in 0..n {
                 t.push(Ev::SetTime(if i % 2 == 0 { a } else { b }.to_bits()));
                 if with_samples {
                     t.push(Ev::Hold(gen_input(rng).to_bits(), 1));
                 }
+            }
+            if near && fs <= 2000.0 {
+                let te = t.exec().t_eff().unwrap_or(1.0).min(10.0) as f64 * fs as f64;
+                t.push(Ev::Hold(gen_input(rng).to_bits(), (3.0 * te + 17.0) as u32));
+                t.push(Ev::Hold(gen_input(rng).to_bits(), te as u32 + 4));
             }
         } else {
             // a long hold
